@@ -100,6 +100,106 @@ example :
     w.2.outbox 1 = .diag ⟨tC, .ts, 2, 2, 2, [], [], none, false⟩ := by
   decide
 
+/-! ### the theorems applied to the witness -/
+
+/-- `HistOk` of a concatenation: the first part is fine, and the second is fine from where the first
+ends (so every prefix of an admissible history is admissible) -/
+theorem histOk_append (a b : List Op) : ∀ w : Client × State,
+    HistOk w (a ++ b) ↔ HistOk w a ∧ HistOk (seqRun w a) b := by
+  induction a with
+  | nil => intro w; simp [HistOk, seqRun]
+  | cons op a ih =>
+    intro w
+    simp only [List.cons_append, HistOk, seqRun, List.foldl_cons]
+    rw [ih (seqStep w op)]
+    simp only [seqRun, and_assoc]
+
+/-- non-vacuity of `sequential_latest_partial` / `sound_after_sequential` (named, to be applied below) -/
+theorem niceHistory_ok : HistOk (Client.init, State.init) niceHistory := by
+  simp [niceHistory, HistOk, OpOk, DiskIsBuf, seqStep, clientStep, handle, prog, update, publishSegs,
+    rereadAndPublish, runSeq, step, replaceDoc, lintSendDoc, publish, setF, Client.init, State.init,
+    tA, tB, dictDiffers, addWord]
+  refine ⟨fun v hv => by simp [hv], fun u t l => ?_, fun u => ?_⟩
+  · by_cases hu : u = 0 <;> simp [hu]
+    intro h1 _; exact h1.symm ▸ rfl
+  · by_cases hu : u = 0 <;> simp [hu]
+
+theorem niceHistory_split : niceHistory = niceHistory.take 9 ++ niceHistory.drop 9 :=
+  (List.take_append_drop 9 niceHistory).symm
+
+/-- non-vacuity of `latest_open` (hypotheses `Latest`, an OPEN document of a known language — all
+obtained from `sequential_latest_partial` on the first nine steps, not by evaluating the outbox) -/
+example : ∃ p, (seqRun (Client.init, State.init) (niceHistory.take 9)).2.outbox 0 = .diag p ∧
+    p.text = tB ∧ p.sevCfg = 3 ∧ p.lintCfg = 3 ∧ p.parseCfg = 3 ∧ p.dictUser = [7] ∧ p.dictFile = [9] ∧
+    p.ignored = true := by
+  have hok : HistOk (Client.init, State.init) (niceHistory.take 9) :=
+    ((histOk_append _ _ _).mp (niceHistory_split ▸ niceHistory_ok)).1
+  obtain ⟨p, h1, h2, h3, h4, h5, h6, h7, h8⟩ :=
+    latest_open _ _ (sequential_latest_partial _ hok) 0 tB .markdown (by decide) (by decide)
+  refine ⟨p, h1, h2, ?_, ?_, ?_, ?_, ?_, ?_⟩
+  · rw [h3]; decide
+  · rw [h4]; decide
+  · rw [h5]; decide
+  · rw [h6]; decide
+  · rw [h7]; decide
+  · rw [h8]; decide
+
+/-- non-vacuity of `latest_closed`: the document of `niceHistory` after close + delete -/
+example : (seqRun (Client.init, State.init) niceHistory).2.outbox 0 = .empty ∨
+    (seqRun (Client.init, State.init) niceHistory).2.outbox 0 = .never :=
+  latest_closed _ _ (sequential_latest_partial _ niceHistory_ok) 0 (by decide)
+
+/-- non-vacuity of `sequential_latest_from`: started mid-session (after nine steps, document open and
+published) with the invariant of that state -/
+example : Latest (seqRun (seqRun (Client.init, State.init) (niceHistory.take 9)) (niceHistory.drop 9)).1
+    (seqRun (seqRun (Client.init, State.init) (niceHistory.take 9)) (niceHistory.drop 9)).2 := by
+  have h := (histOk_append _ _ _).mp (niceHistory_split ▸ niceHistory_ok)
+  exact sequential_latest_from _ _ _ (seq_inv _ _ inv_init h.1) h.2
+
+/-- non-vacuity of `sequential_latest_partial` with TWO documents (one of a tree-sitter language, one
+reopened under an id no parser exists for), a two-key configuration order, `didSave`, an unknown
+command, both add-to-dictionary commands: the side conditions of `OpOk` hold together -/
+example : HistOk (Client.init, State.init)
+    [.disk 0 (some tA), .msg (.didOpen 0 .plain tA), .disk 1 (some tC), .msg (.didOpen 1 .ts tC),
+     .msg (.didChangeConfiguration 2 [1, 0]), .msg (.didSave 1), .msg .noop, .msg (.addFile 4 1),
+     .msg (.didClose 1), .msg (.addUser 7 0), .msg (.didOpen 1 .unknown tB)] := by
+  simp [HistOk, OpOk, DiskIsBuf, seqStep, clientStep, handle, prog, update, publishSegs,
+    rereadAndPublish, runSeq, step, replaceDoc, lintSendDoc, publish, setF, Client.init, State.init,
+    tA, tB, tC, dictDiffers, addWord]
+  refine ⟨⟨fun u t l => ?_, fun u => ?_⟩, fun v h0 h1 => by simp [h0, h1]⟩
+  · by_cases h1 : u = 1 <;> by_cases h0 : u = 0 <;> simp [h1, h0] <;> (intro h _; exact h)
+  · by_cases h1 : u = 1 <;> by_cases h0 : u = 0 <;> simp [h1, h0]
+
+/-- … and where it ends: document 0 carries configuration 2 and the user word, document 1 (unknown
+language) has empty diagnostics -/
+example :
+    let w := seqRun (Client.init, State.init)
+      [.disk 0 (some tA), .msg (.didOpen 0 .plain tA), .disk 1 (some tC), .msg (.didOpen 1 .ts tC),
+       .msg (.didChangeConfiguration 2 [1, 0]), .msg (.didSave 1), .msg .noop, .msg (.addFile 4 1),
+       .msg (.didClose 1), .msg (.addUser 7 0), .msg (.didOpen 1 .unknown tB)]
+    w.2.outbox 0 = .diag ⟨tA, .plain, 2, 2, 2, [7], [], none, false⟩ ∧ w.2.outbox 1 = .empty ∧
+    w.2.fileDict 1 = [4] := by
+  decide
+
+/-- **`seqRun` against the scheduler the driver runs.** The theorems above are about `seqRun` /
+`runSeq` (one handler alone); the driver op `srv` and every counter-schedule below run `runMacro`
+(`Sys`, `settle`). Both execute the same `prog` and `step`; there is no general lemma relating them.
+On the witness they agree: `niceHistory` fed to `runMacro` with every configuration request answered
+at once (the client's configuration: 0, then 3) leaves the server idle with exactly the same
+publication log (eight publications), dictionaries and configuration. -/
+example :
+    let as : List Act :=
+      [.disk 0 (some tA), .recv (.didOpen 0 .markdown tA), .reply 0 0, .recv (.didChange 0 tB), .reply 0 0,
+       .disk 0 (some tB), .recv (.didSave 0), .reply 0 0, .recv (.addUser 7 0), .reply 0 0,
+       .recv (.addFile 9 0), .reply 0 0, .recv (.ignore 0),
+       .recv (.didChangeConfiguration 3 [0]), .reply 0 3, .recv (.didClose 0), .recv (.deleted [0])]
+    let y := runMacro (Sys.init State.init) as
+    let w := seqRun (Client.init, State.init) niceHistory
+    y.pend = [] ∧ y.run.isEmpty = true ∧ y.queue.isEmpty = true ∧
+    y.st.log = w.2.log ∧ y.st.userDict = w.2.userDict ∧ y.st.fileDict 0 = w.2.fileDict 0 ∧
+    y.st.config = w.2.config ∧ y.st.badOrder = false ∧ w.2.log.length = 8 := by
+  decide
+
 /-! ## false under interleaving -/
 
 /-- Two `didChange` of one URL; the client answers the SECOND handler's configuration request
@@ -279,7 +379,9 @@ configuration because an earlier pull wrote it), once the handler of a
 `didChangeConfiguration(k)` that finds disk = buffer has finished, `Latest` holds for the client
 configuration `k`: every open document's last publication has severity, linter and parser facets
 `k`, the newest text and the current dictionaries. A handler that skips rebuilding the linters when
-`Backend::config` already holds the new settings violates exactly this. -/
+`Backend::config` already holds the new settings violates exactly this. The handler runs ALONE here
+(`handle`: its segments are not interleaved with another handler's); under interleaving the statement
+is false — see `concurrent_stale`. -/
 theorem latest_after_notification (c : Client) (s : State) (k : CfgV) (order : List Url)
     (hW : ∀ v, WeakAt c s v) (hd : ∀ u, DiskIsBuf c s u)
     (ho : ∀ u, u ∈ order ↔ (s.docs u).isSome = true) :
